@@ -410,7 +410,7 @@ pub fn run(ctx: &Ctx) -> CheckResult {
         let mut qc = vec![];
         for k in ALL_KINDS {
             qc.push(k.default_cfg());
-            qc.extend(generic_cfgs(k, &[2, 5], &[2, 5]).into_iter().filter(|c| c.kind.nperiods() < 2 || c.p[0] != c.p[1]));
+            qc.extend(generic_cfgs(k, &[2, 5, 17, 20, 33], &[2, 5]).into_iter().filter(|c| c.kind.nperiods() < 2 || c.p[0] != c.p[1]));
         }
         let outs = par_run(ctx, &qc, |_, cfg| {
             let mut out = JobOut::default();
@@ -435,9 +435,26 @@ pub fn run(ctx: &Ctx) -> CheckResult {
                     break;
                 }
             }
+            // long directional legs (2n+3 bars up, 2n+3 down, on a 0.05 grid) with a small counter-move on every
+            // bar k*n+1: "the whole window is one leg" shortcuts, ring-phase dependent look-backs
+            if !out.failed() && cfg.max_period() <= 40 {
+                let n = cfg.max_period().max(2);
+                let leg = 2 * n + 3;
+                let bars: Vec<Bar> = (0..14 * leg)
+                    .map(|i| {
+                        let ph = i % (2 * leg);
+                        let tri = if ph < leg { ph } else { 2 * leg - ph };
+                        let dip = if i % n == 1 { 0.02 } else { 0.0 };
+                        let c = 40.0 + 0.05 * tri as f64 - if ph < leg { dip } else { -dip };
+                        Bar { o: c * 0.5, h: c * 1.5, l: c * 0.25, c, v: 1.0 + (i % 3) as f64 }
+                    })
+                    .collect();
+                out.stats.states += 1;
+                check_seq(cfg, &bars, &mut out);
+            }
             // one long stream of two-decimal prices with exactly flat stretches (a bar path that does its
             // own bookkeeping instead of forwarding drifts away from the scalar path only here)
-            if !out.failed() && cfg.max_period() <= 30 {
+            if !out.failed() && cfg.max_period() <= 40 {
                 let len = if th { 200_000usize } else { 30_000 };
                 let mut lcg = Lcg::new(ctx.seed ^ 0x5eed);
                 let mut c = 57.23f64;
@@ -461,7 +478,7 @@ pub fn run(ctx: &Ctx) -> CheckResult {
     }
     res.extra.insert("documented_fields".into(), json!(ALL_KINDS.iter().map(|k| (k.name().to_string(), format!("{:?}", documented(*k)))).collect::<std::collections::BTreeMap<_, _>>()));
     res.rule = "case = (configuration, bar sequence): outputs of Next<&T> on bars whose five fields vary independently compared (1e-12 relative) with (i) Next<f64> on the documented field, (iii) the same sequence with every undocumented field replaced (all at once finite / NaN, and one at a time), (iv) a second implementor storing integers, and DataItem on valid bars; (ii) one-price bars vs scalar path; non-trivial = perturbation comparisons".into();
-    res.bounds = format!("all 22 indicators, periods {{1,3}}; all 10^{depth} sequences over B_free (incl. zero and negative closes, highs, volumes); three 160-bar streams of quiet closes (100*(1 +- a few 1e-6)) and one 30000 / 200000-bar stream of two-decimal prices with flat stretches for every close/low/high-reading indicator incl. the documented defaults; one-price: all 5^{} scalar sequences over {{1,2.5,0.1,7,-3}} over {{1, 0.75, 0.75+1ulp, 2e-17, 3e-17}} and (not KC) over {{1e307, 9e307, 3e307, 5e307, 2e307}} for FAST_STOCH/SLOW_STOCH/TR/ATR/KC (multipliers 2, -2, 0) n in {{1,2,3,5}}, and every assignment of {{scalar, one-price bar}} to the positions of all streams two steps shorter (both paths mixed on one instance); DataItem: all 12^{} sequences of valid bars (incl. open/close within 1e-9 of an extreme)", if th { 7 } else { 6 }, if th { 5 } else { 4 });
+    res.bounds = format!("all 22 indicators, periods {{1,3}}; all 10^{depth} sequences over B_free (incl. zero and negative closes, highs, volumes); three 160-bar streams of quiet closes, a triangle wave with legs of 2n+3 bars and a counter-move on every bar k*n+1 (periods 2, 5, 17, 20, 33 and the defaults) (100*(1 +- a few 1e-6)) and one 30000 / 200000-bar stream of two-decimal prices with flat stretches for every close/low/high-reading indicator incl. the documented defaults; one-price: all 5^{} scalar sequences over {{1,2.5,0.1,7,-3}} over {{1, 0.75, 0.75+1ulp, 2e-17, 3e-17}} and (not KC) over {{1e307, 9e307, 3e307, 5e307, 2e307}} for FAST_STOCH/SLOW_STOCH/TR/ATR/KC (multipliers 2, -2, 0) n in {{1,2,3,5}}, and every assignment of {{scalar, one-price bar}} to the positions of all streams two steps shorter (both paths mixed on one instance); DataItem: all 12^{} sequences of valid bars (incl. open/close within 1e-9 of an extreme)", if th { 7 } else { 6 }, if th { 5 } else { 4 });
     res.assumptions = vec!["minimal-trait user types (CloseOnly, Hlc, ...) are compiled and run by the separate /verif/surface crate as part of this check".into()];
     res
 }
